@@ -55,6 +55,55 @@ pub type Out = Vec<i64>;
 struct Ux {
     world: World,
     hs: Vec<Entity>,
+    /// one event reader per tracked storage, registered right after the storage (operation 91 reads it)
+    readers: std::collections::HashMap<i64, specs::shrev::ReaderId<specs::storage::ComponentEvent>>,
+}
+
+fn reg_reader<T: Tokish>(x: &mut Ux, sid: i64)
+where
+    T::Storage: specs::storage::Tracked,
+{
+    let r = x.world.write_storage::<T>().register_reader();
+    x.readers.insert(sid, r);
+}
+
+/// `[91, nmask, idx.., nev, (kind idx)..]`: the mask now and the events since the registration / the last read
+fn dump_events<T: Tokish>(x: &mut Ux, sid: i64) -> Out
+where
+    T::Storage: specs::storage::Tracked,
+{
+    use specs::storage::ComponentEvent;
+    let st = x.world.read_storage::<T>();
+    let ids: Vec<u32> = st.mask().iter().collect();
+    let mut o = vec![91, ids.len() as i64];
+    o.extend(ids.iter().map(|&i| i as i64));
+    match x.readers.get_mut(&sid) {
+        Some(r) => {
+            let evs: Vec<ComponentEvent> = st.channel().read(r).copied().collect();
+            o.push(evs.len() as i64);
+            for ev in evs {
+                match ev {
+                    ComponentEvent::Inserted(i) => o.extend([0, i as i64]),
+                    ComponentEvent::Modified(i) => o.extend([1, i as i64]),
+                    ComponentEvent::Removed(i) => o.extend([2, i as i64]),
+                }
+            }
+        }
+        None => o.push(-1),
+    }
+    o
+}
+
+macro_rules! by_tracked_usid {
+    ($sid:expr, $f:ident, $($a:expr),*) => {
+        match $sid {
+            6 => $f::<FV>($($a),*), 7 => $f::<FD>($($a),*), 8 => $f::<FT>($($a),*),
+            9 => $f::<FH>($($a),*), 10 => $f::<FB>($($a),*),
+            11 => $f::<GV>($($a),*), 12 => $f::<GD>($($a),*), 13 => $f::<GT>($($a),*),
+            14 => $f::<GH>($($a),*), 15 => $f::<GB>($($a),*),
+            _ => unreachable!(),
+        }
+    };
 }
 
 fn registered<T: Tokish>(world: &World) -> bool {
@@ -211,7 +260,17 @@ fn exec(x: &mut Ux, code: i64, p: &[i64], out: &mut Out) {
         (50, 1) => {
             if (0..=15).contains(&p[0]) {
                 by_sid!(p[0], reg, &mut x.world);
+                if (6..=15).contains(&p[0]) && !x.readers.contains_key(&p[0]) {
+                    by_tracked_usid!(p[0], reg_reader, x, p[0]);
+                }
                 *out = vec![7];
+            } else {
+                *out = skip;
+            }
+        }
+        (91, 1) => {
+            if (6..=15).contains(&p[0]) && is_reg(&x.world, p[0]) {
+                *out = by_tracked_usid!(p[0], dump_events, x, p[0]);
             } else {
                 *out = skip;
             }
@@ -243,7 +302,10 @@ fn exec(x: &mut Ux, code: i64, p: &[i64], out: &mut Out) {
             }
             match code {
                 39 => by_sid!(sid, clear_op, &mut x.world, out),
-                60 => by_sid!(sid, drop_storage_op, &mut x.world, out),
+                60 => {
+                    x.readers.remove(&sid);
+                    by_sid!(sid, drop_storage_op, &mut x.world, out)
+                }
                 37 => *out = by_sid!(sid, mask_op, &x.world),
                 32 => *out = by_sid!(sid, get_all_op, &x.world, &x.hs),
                 80 => *out = by_sid!(sid, join_op, &x.world),
@@ -316,6 +378,7 @@ fn exec(x: &mut Ux, code: i64, p: &[i64], out: &mut Out) {
             *out = o;
         }
         (99, 0) => {
+            x.readers.clear();
             let old = std::mem::replace(&mut x.world, World::new());
             *out = vec![7];
             drop(old);
@@ -458,7 +521,7 @@ pub fn run_history(ints: &[i64]) -> Vec<Out> {
     if ints.len() >= 2 && ints[0] == 81 && ints[1] == 0 {
         return run_cs_history(ints);
     }
-    let mut x = Ux { world: World::new(), hs: Vec::new() };
+    let mut x = Ux { world: World::new(), hs: Vec::new(), readers: Default::default() };
     let mut tr = Vec::new();
     let mut i = 0;
     let mut armed: u64 = 0;
